@@ -60,7 +60,7 @@ ASSUMPTIONS = [
 ]
 PROFILE = {
     "quick": dict(examples=500, shards=16, budget_s=110),
-    "thorough": dict(examples=15000, shards=16, budget_s=1100),
+    "thorough": dict(examples=10000, shards=16, budget_s=1100),
 }
 
 
